@@ -39,6 +39,10 @@ let handle fields impl : string option * string list =
   | ["enc"; items] ->
     let l = Util.items_of_string items in
     (Some (Util.hex_of_bytes (ub (encode_contents (bl l)))), [])
+  | ["hold"; items; _] ->
+    (* the payload joined from [items], observed after later joins of other lists: still encode(items), and it still splits to items *)
+    let m = Util.hex_of_bytes (ub (encode_contents (bl (Util.items_of_string items)))) in
+    (Some m, if impl = m then [] else ["joined-payload-changed-by-later-join"])
   | ["dec"; h] ->
     let data = b (Util.bytes_of_hex h) in
     let r = decode_contents data in
